@@ -1796,6 +1796,15 @@ pub mod internal {
     pub use crate::analyze::analyze;
     pub use crate::compile::compile;
     pub use crate::vm::{run_default, run_trace, Insn, Prog};
+    /// Verification hooks (cargo feature `verif-hooks`).
+    #[cfg(feature = "verif-hooks")]
+    pub mod verif {
+        pub use crate::analyze::verif::{verif_facts, VerifFacts};
+        pub use crate::vm::verif::{
+            verif_set_config, verif_take_stats, VerifConfig, VerifState, VerifStats,
+            VerifStepCapHit,
+        };
+    }
 }
 
 #[cfg(test)]
